@@ -64,6 +64,29 @@ where
     calibrate_image: bool,
 }
 
+/// Read-only verification hooks (`--cfg lora_rs_verif`): the driver's bookkeeping about the chip.
+#[cfg(lora_rs_verif)]
+impl<RK, DLY> LoRa<RK, DLY>
+where
+    RK: RadioKind,
+    DLY: DelayNs,
+{
+    /// The mode the driver believes the chip is in
+    pub fn verif_radio_mode(&self) -> RadioMode {
+        self.radio_mode
+    }
+
+    /// Whether the driver believes the chip configuration is lost (cold start pending)
+    pub fn verif_cold_start(&self) -> bool {
+        self.cold_start
+    }
+
+    /// Whether an image calibration is pending
+    pub fn verif_calibrate_image(&self) -> bool {
+        self.calibrate_image
+    }
+}
+
 impl<RK, DLY> LoRa<RK, DLY>
 where
     RK: RadioKind,
